@@ -1,1 +1,62 @@
-From G01 Require Import ReqE2E.
+(* C01 — table obligations (closed computations on the regenerated Tables.v) and the lemmas of
+   ReqProofs.v instantiated with them. *)
+From G01 Require Import ReqE2E ViaProofs ReqProofs Ob18.
+
+(* the source's hop-by-hop list is the documented one (Connection, Keep-Alive, Proxy-Authenticate,
+   Proxy-Authorization, Proxy-Connection, TE, Trailer, Transfer-Encoding, Upgrade), in net/http's spelling *)
+Lemma ob_hop_list : hop_by_hop_headers = spec_hop_list.
+Proof. vm_compute. reflexivity. Qed.
+(* httpspec.NewStack + middlewareStack order: hop-by-hop, forwarded, framing, via, then user modifiers,
+   setBasicAuth, setEmptyUserAgent *)
+Lemma ob_flat_stack : flat_stack = fixed_flat_stack.
+Proof. vm_compute. reflexivity. Qed.
+(* the httpspec stack is the last request modifier of the top group (access controls run before it) *)
+Lemma ob_stack_last_in_top_group : last mw_top_order [] = b "stack".
+Proof. vm_compute. reflexivity. Qed.
+Lemma ob_xff_reads_all_lines : xff_reads_all_lines = true.
+Proof. vm_compute. reflexivity. Qed.
+Lemma ob_xfwd_fill_reads_all_lines : xfwd_fill_reads_all_lines = true.
+Proof. vm_compute. reflexivity. Qed.
+(* proxyConn.handle: fixRequestScheme, upgradeType, modifyRequest, re-add of Connection/Upgrade, roundTrip *)
+Lemma ob_handle_order : handle_order = fixed_handle_order.
+Proof. vm_compute. reflexivity. Qed.
+(* forwarder sets AllowHTTP (no forced https inside TLS listeners) *)
+Lemma ob_allow_http : proxy_allow_http = true.
+Proof. vm_compute. reflexivity. Qed.
+
+(* ---------- consequences ---------- *)
+Definition f01_modify_is_pipeline := modify_request_is_pipeline ob_flat_stack ob_xff_reads_all_lines ob_xfwd_fill_reads_all_lines ob_via_reads_all_lines.
+Definition f01_end_to_end := end_to_end_preserved ob_hop_list ob_flat_stack ob_xff_reads_all_lines ob_xfwd_fill_reads_all_lines ob_via_reads_all_lines.
+Definition f01_removed := hop_by_hop_removed ob_hop_list ob_flat_stack ob_xff_reads_all_lines ob_xfwd_fill_reads_all_lines ob_via_reads_all_lines.
+Definition f01_identity := identity_fields ob_flat_stack ob_xff_reads_all_lines ob_xfwd_fill_reads_all_lines ob_via_reads_all_lines.
+Definition f01_user_agent := user_agent ob_hop_list ob_flat_stack ob_xff_reads_all_lines ob_xfwd_fill_reads_all_lines ob_via_reads_all_lines.
+Definition f01_filled := forwarded_filled ob_hop_list ob_flat_stack ob_xff_reads_all_lines ob_xfwd_fill_reads_all_lines ob_via_reads_all_lines.
+Definition f01_via_xff := via_xff_appended ob_hop_list ob_flat_stack ob_xff_reads_all_lines ob_xfwd_fill_reads_all_lines
+  ob_via_reads_all_lines ob_via_loop_status ob_via_sets_close ob_via_join_sep ob_proto_table.
+Definition f01_upgrade := upgrade_readded ob_hop_list ob_flat_stack ob_xff_reads_all_lines ob_xfwd_fill_reads_all_lines
+  ob_via_reads_all_lines ob_handle_order.
+
+Lemma f01_user_agent_never_default tag r r' : modify_request tag r = Passed r' -> raw_get k_ua (q_hdr r') <> None.
+Proof. intro H. rewrite (f01_user_agent tag r r' H). destruct (raw_get k_ua (after_removal (q_hdr r))); discriminate. Qed.
+
+(* the shape the source had before commit 48b84b4 loses every X-Forwarded-For field line after the first *)
+Lemma legacy_xff_refuted : exists r,
+  str_eqb (q_method r) m_connect = false /\
+  raw_values k_xff (q_hdr r) = [b "203.0.113.7"; b "198.51.100.1"] /\
+  chain (raw_values k_xff (q_hdr (forwarded_gen2 true false r))) <> chain (raw_values k_xff (q_hdr r)) ++ [b "10.1.2.3"].
+Proof.
+  exists (mkq (b "GET") (b "http") (b "example.com") (b "http://example.com/") (b "10.1.2.3:4567") false 1 1 false
+              [(k_xff, [b "203.0.113.7"; b "198.51.100.1"])]).
+  split; [reflexivity|]. split; [reflexivity|]. vm_compute. discriminate.
+Qed.
+
+(* ... and the fill-in test of that time (first line only) overwrote X-Forwarded-Proto: "", "https" *)
+Lemma legacy_fill_refuted : exists r,
+  str_eqb (q_method r) m_connect = false /\
+  raw_get k_xfp (q_hdr r) = Some [[]; b "https"] /\
+  raw_get k_xfp (q_hdr (forwarded_gen2 false true r)) = Some [b "http"].
+Proof.
+  exists (mkq (b "GET") (b "http") (b "example.com") (b "http://example.com/") (b "10.1.2.3:4567") false 1 1 false
+              [(k_xfp, [[]; b "https"])]).
+  split; [reflexivity|]. split; reflexivity.
+Qed.
